@@ -216,7 +216,7 @@ def check_C01(chk):
     if out:
         chk.add_replay(out, st)
     # the plain bitvector reached through the lifecycle machine: raw / width-1 integer vectors under every mutation history, then BitVector::from and enable_*
-    stage_life(chk, bins, "C01", ["to:raw>plain", "enable:plain"], ops='{"mut", "to", "enable"}', kinds='{"raw", "int", "plain"}',
+    stage_life(chk, bins, "C01", ["to:raw>plain", "enable:plain"], ops='{"mut", "to", "enable"}', kinds='{"raw", "int", "plain"}', intwidths="{1, 30}" if chk.thorough else "{1}",
                maxlen=4 if chk.thorough else 3, scales=(1, 3, 64, 65), big_scales=(130, 1100) if chk.thorough else (1100,), big_stride=3 if chk.thorough else 11)
     total = stage_trace(chk, bins, "plain", "TraceBV", invariants=("ObjWellFormed",), seeds=6 if chk.thorough else 1)
     chk.cov["regimes"] = total
@@ -649,7 +649,7 @@ def check_C11(chk):
     # conversions at the top of the range: sparse <-> run-length with lengths up to usize::MAX, validated against the U64 semantics
     stage_trace(chk, bins, "huge", "TraceBV64", extra_args=("--only", "conv"))
     # conversions at every state of the lifecycle machine: sources that were mutated, converted, given supports before
-    stage_life(chk, bins, "C11", ["to:plain>plain", "to:plain>sparse", "to:plain>rl", "to:sparse>", "to:rl>"], ops='{"mut", "to", "enable"}',
+    stage_life(chk, bins, "C11", ["to:plain>plain", "to:plain>sparse", "to:plain>rl", "to:sparse>", "to:rl>"], ops='{"mut", "to", "enable"}', intwidths="{1}",
                maxlen=3 if chk.thorough else 2, scales=(1, 3, 64, 65) if chk.thorough else (1, 3, 65), big_scales=(130, 1100), big_stride=11 if chk.thorough else 41,
                walks=150 if chk.thorough else 0, walk_depth=9, memory=2)      # two calls of memory: what a mutator leaves behind (stale bits, cached counts) reaches the conversion after next
     chk.cov["exhaustive"] = True
@@ -666,7 +666,7 @@ def check_C19(chk):
     stage_wm_subsets(chk, bins)
     # supports enabled, reloaded and cloned at every state of the lifecycle machine
     stage_life(chk, bins, "C19", ["enable:", "reload:plain", "reload:sparse", "reload:rl", "file:plain", "file:sparse", "file:rl", "clone:plain", "clone:sparse", "clone:rl"],
-               ops='{"mut", "to", "enable", "reload", "file", "clone"}', maxlen=3 if chk.thorough else 2, scales=(1, 64, 65), big_scales=(130, 1100), big_stride=5 if chk.thorough else 13)
+               ops='{"mut", "to", "enable", "reload", "file", "clone"}', intwidths="{1}", maxlen=3 if chk.thorough else 2, scales=(1, 64, 65), big_scales=(130, 1100), big_stride=5 if chk.thorough else 13)
     chk.cov["exhaustive"] = True
     stage_trace(chk, bins, "conv", "TraceConv", seeds=2 if chk.thorough else 1)
     return chk.finish(rule="cases = (content, history of enable_* / serialize+load calls of depth 4 from a plain bitvector without supports): every "
@@ -735,7 +735,8 @@ def check_C06(chk):
     if out:
         chk.add_replay(out, st)
     # serialize + load (in memory and through serialize_to / load_from) at every state of the lifecycle machine
-    stage_life(chk, bins, "C06", ["reload:", "file:"], ops='{"mut", "to", "enable", "reload", "file"}', maxlen=3 if chk.thorough else 2, scales=(1, 64, 65), big_scales=(1100,), big_stride=9)
+    stage_life(chk, bins, "C06int", ["reload:", "file:"], ops='{"mut", "reload", "file"}', kinds='{"int"}', initkinds='{"int"}', intwidths="{1, 3, 30}", maxlen=3, scales=(1, 3, 64, 65))
+    stage_life(chk, bins, "C06", ["reload:", "file:"], ops='{"mut", "to", "enable", "reload", "file"}', initkinds='{"raw", "int"}' if chk.thorough else '{"raw"}', intwidths="{1, 30}", maxlen=3 if chk.thorough else 2, scales=(1, 64, 65), big_scales=(1100,), big_stride=9)
     chk.cov["exhaustive"] = True
     stage_trace(chk, bins, "stream", "TraceStream", seeds=2 if chk.thorough else 1)
     return chk.finish(rule="cases = streams of serialized values of every Serialize type (73-value pool incl. empty instances, nested options, all 8 support "
